@@ -3,6 +3,7 @@
 import abc
 import fnmatch
 import re
+import urllib.parse
 
 from typing import List, Iterator
 
@@ -305,14 +306,24 @@ class DirectoryFilter(BaseURLFilter):
 
         return True
 
+    @classmethod
+    def _match(cls, dirname, url_info):
+        # The path of the URL is percent-encoded; the list entry is what
+        # the user typed, with or without the leading slash. Both are
+        # compared in their unescaped spelling.
+        path = urllib.parse.unquote(url_info.path)
+        dirname = '/' + urllib.parse.unquote(dirname).lstrip('/')
+
+        return is_subdir(dirname, path, wildcards=True)
+
     def _is_accepted(self, url_info):
         for dirname in self._accepted:
-            if is_subdir(dirname, url_info.path, wildcards=True):
+            if self._match(dirname, url_info):
                 return True
 
     def _is_rejected(self, url_info):
         for dirname in self._rejected:
-            if is_subdir(dirname, url_info.path, wildcards=True):
+            if self._match(dirname, url_info):
                 return True
 
 
